@@ -306,6 +306,72 @@ pub fn case<G: CurveTag>(bytes: &[u8], col: &mut Collector, cfg: &GenCfg) -> Res
     Ok(())
 }
 
+/// Adjacent cancelling pairs, swept over every position: +e on constraint q and -e on q+1 of a
+/// circuit with many constraints (kind 0), or on the outputs of gates i and i+1 (kind 1). Two
+/// positions that share a weight in the random linear combination would let the pair through.
+#[derive(Clone, Copy, Debug)]
+pub struct SweepItem {
+    pub curve: Curve,
+    pub kind: u8,
+    pub total: usize,
+    pub at: usize,
+}
+
+impl SweepItem {
+    pub fn encode(&self) -> Vec<u8> {
+        vec![self.curve.index() as u8, self.kind, (self.total >> 8) as u8, self.total as u8, (self.at >> 8) as u8, self.at as u8]
+    }
+    pub fn decode(b: &[u8]) -> Option<Self> {
+        if b.len() != 6 {
+            return None;
+        }
+        Some(SweepItem { curve: *Curve::ALL.get(b[0] as usize)?, kind: b[1], total: (b[2] as usize) << 8 | b[3] as usize, at: (b[4] as usize) << 8 | b[5] as usize })
+    }
+}
+
+fn sweep_case<G: CurveTag>(it: &SweepItem, col: &mut Collector) -> Result<(), Failure> {
+    use crate::program::Cap;
+    let mut ops = vec![Op::Commit { v: ScalarSpec::Small(9), blind: ScalarSpec::Rand(5) }];
+    if it.kind == 0 {
+        for q in 0..it.total {
+            let err = if q == it.at { Some(ScalarSpec::Small(3)) } else if q == it.at + 1 { Some(ScalarSpec::NegSmall(3)) } else { None };
+            let lc = if q % 3 == 0 { vec![] } else { vec![(Var::Com(0), Sc::C(ScalarSpec::Small(1 + (q % 7) as u64)))] };
+            ops.push(Op::Constrain { lc, err, base: None });
+        }
+    } else {
+        for i in 0..it.total {
+            ops.push(Op::AllocMul { l: Sc::C(ScalarSpec::Small(2 + i as u64)), r: Sc::C(ScalarSpec::Rand(i as u64)) });
+        }
+        ops.push(Op::Tamper { gate: it.at, dl: ScalarSpec::Zero, dr: ScalarSpec::Zero, dout: ScalarSpec::Small(5) });
+        ops.push(Op::Tamper { gate: it.at + 1, dl: ScalarSpec::Zero, dr: ScalarSpec::Zero, dout: ScalarSpec::NegSmall(5) });
+    }
+    let prog = Program { curve: G::CURVE, tlabel: 0, pre: vec![], ops, owned: false, cap_p: Cap::Exact, cap_v: Cap::Exact, party_cap: 1, seed: it.at as u64, pc: 0 };
+    let p = run_prover::<G>(&prog, &ProveOpts::default());
+    if p.model.violations().len() != 2 {
+        return Err(Failure::new("machinery:sweep", "sweep program does not violate exactly two items", json!(format!("{:?}", it))));
+    }
+    let Some(proof) = p.proof.as_ref() else { return Ok(()) };
+    let v = run_verifier::<G>(&prog, &p.commitments, proof, &VerifyOpts::default());
+    if v.accepted() {
+        let what = if it.kind == 0 { "linear constraints" } else { "multiplication gates" };
+        return Err(Failure::new(
+            format!("C02:accepted:adjacent-cancelling-{}", if it.kind == 0 { "constraints" } else { "gates" }),
+            format!("cancelling errors on {} #{} and #{} (of {}) are accepted: the two positions are not weighted independently", what, it.at, it.at + 1, it.total),
+            json!({"sweep": format!("{:?}", it)}),
+        ));
+    }
+    col.class(if it.kind == 0 { "sweep:adjacent-constraints" } else { "sweep:adjacent-gates" });
+    col.nontrivial(fp_of(&(it.curve, it.kind, it.total, it.at)));
+    if it.at == 255 {
+        col.sample(true, || json!({"sweep": format!("{:?}", it), "verdict": v.verdict()}));
+    }
+    Ok(())
+}
+
+fn dispatch_sweep(it: &SweepItem, col: &mut Collector) -> Result<(), Failure> {
+    with_curve!(it.curve, G => sweep_case::<G>(it, col))
+}
+
 fn dispatch(sub: &str, bytes: &[u8], col: &mut Collector) -> Result<(), Failure> {
     let curve = Curve::from_name(sub.split('/').nth(1).unwrap_or("")).unwrap_or(Curve::Secq);
     let cfg = if sub.ends_with("/wide") { GenCfg { max_ops1: 600, max_closures: 2, max_ops2: 6, max_commits: 200, big_gates: 0, max_terms: 6, wide: true } } else if sub.ends_with("/large") { GenCfg { max_ops1: 26, max_closures: 5, max_ops2: 10, max_commits: 12, big_gates: 70, max_terms: 10, wide: false } } else { GenCfg::small() };
@@ -313,6 +379,10 @@ fn dispatch(sub: &str, bytes: &[u8], col: &mut Collector) -> Result<(), Failure>
 }
 
 pub fn replay(sub: &str, bytes: &[u8], col: &mut Collector) -> Result<(), Failure> {
+    if sub == "c02/sweep" {
+        let it = SweepItem::decode(bytes).ok_or_else(|| Failure::new("machinery:replay", "bad sweep item", json!(null)))?;
+        return dispatch_sweep(&it, col);
+    }
     dispatch(sub, bytes, col)
 }
 
@@ -338,6 +408,24 @@ pub fn run(tier: &str, seed: u64) -> i32 {
         let subw = format!("c02/{}/wide", c.name());
         let nw = super::scale(tier, 16, 200);
         rep.outcome.merge(search(&subw, seed, nw, 6000, &|b, col| dispatch(&subw, b, col)));
+    }
+    // position sweeps of adjacent cancelling pairs
+    if rep.outcome.found.is_empty() {
+        let mut items = vec![];
+        let curves: Vec<Curve> = if tier == "thorough" { Curve::ALL.to_vec() } else { vec![Curve::ALL[(seed % 3) as usize]] };
+        for c in curves {
+            let (q_total, g_total) = if tier == "thorough" { (1100, 256) } else { (1100, 64) };
+            for at in 0..q_total - 1 {
+                items.push(SweepItem { curve: c, kind: 0, total: q_total, at });
+            }
+            for at in 0..g_total - 1 {
+                items.push(SweepItem { curve: c, kind: 1, total: g_total, at });
+            }
+        }
+        let mut o = crate::runner::enumerate("c02/sweep", &items, &|i| i.encode(), &|i, col| dispatch_sweep(i, col));
+        o.exhaustive = false;
+        rep.extra.insert("sweep_items".into(), json!(items.len()));
+        rep.outcome.merge(o);
     }
     for c in [
         "inject:linear", "inject:constant-only", "inject:committed-only", "inject:gate", "inject:cancelling-linear-pair",
